@@ -19,6 +19,8 @@ from ..spec import strip_meta
 
 PID = "C02"
 LEVEL = "exploration"
+# a few fixed documents are encoded before and after every shard's workload (harness.Sentinels)
+SENTINELS = True
 RULE = ("random single- and multi-section tables (0..50 rows, 1..7 cols; key column tagged d<row>c<col>; "
         "other cells strings with blanks / ints / floats / nulls / long wrapping text) x nrow 1..50 x all "
         "strategies (plain, page_by new_page on/off, pageby_row column/first_row, subline_by, "
